@@ -95,9 +95,15 @@ const (
 	sitVarOverTag
 	sitAbsent
 	sitCount
+	// C11 only: a variable of that name existed and is gone - it was local to a loop body or a block that
+	// has ended, or it was the variable of a finished for-in loop; the builtin sees the point (or nothing)
+	sitGoneBodyVarOverField = sitCount
+	sitGoneBlockVarAbsent   = sitCount + 1
+	sitGoneLoopVarOverTag   = sitCount + 2
+	sitCount11              = sitCount + 3
 )
 
-var c11SitNames = []string{"variable", "field", "tag", "variable-over-field", "variable-over-tag", "absent"}
+var c11SitNames = []string{"variable", "field", "tag", "variable-over-field", "variable-over-tag", "absent", "gone-body-variable-over-field", "gone-block-variable-absent", "gone-loop-variable-over-tag"}
 
 type c11Tmpl struct {
 	Name    string
@@ -149,6 +155,11 @@ func c11Templates() []c11Tmpl {
 		{"trim(K,empty)", one(func(k nodeFn) *rt.Node { return rt.Call("trim", k(), S("")) }), false},
 		{"replace(K,a+,b)", one(func(k nodeFn) *rt.Node { return rt.Call("replace", k(), S("a+"), S("b")) }), false},
 		{"replace(K,group)", one(func(k nodeFn) *rt.Node { return rt.Call("replace", k(), S(`(\d+)`), S("<$1>")) }), false},
+		// patterns without any regexp syntax, replacement templates all the same
+		{"replace(K,plain,$0$0)", one(func(k nodeFn) *rt.Node { return rt.Call("replace", k(), S("aa"), S("<$0$0>")) }), false},
+		{"replace(K,plain,$$)", one(func(k nodeFn) *rt.Node { return rt.Call("replace", k(), S("a"), S("$$")) }), false},
+		{"replace(K,plain,${1}x$1)", one(func(k nodeFn) *rt.Node { return rt.Call("replace", k(), S("b"), S("[${1}x$1$name]")) }), false},
+		{"replace(K,space,$)", one(func(k nodeFn) *rt.Node { return rt.Call("replace", k(), S(" "), S("$")) }), false},
 		{"replace(K,badre)", one(func(k nodeFn) *rt.Node { return rt.Call("replace", k(), S("("), S("x")) }), false},
 		{"strfmt(K,%v)", one(func(k nodeFn) *rt.Node { return rt.Call("strfmt", k(), S("%v"), Id("o1")) }), false},
 		{"strfmt(K,%d-%s)", one(func(k nodeFn) *rt.Node { return rt.Call("strfmt", k(), S("%d-%s"), I(3), Id("o2")) }), false},
@@ -213,6 +224,17 @@ func c11Build(t c11Tmpl, sh c11Shape, sit int, val c11Val, base PointSpec) (*Pro
 		if val.Name != "int" {
 			return nil, false // the value plays no role
 		}
+	case sitGoneBodyVarOverField:
+		pt.Fields[sh.Key] = "fieldval"
+		pre = append(pre, rt.ForIn("q", rt.List(rt.Int(1), rt.Int(2)), rt.Block(rt.Assign("=", sh.Var(), val.Node()))))
+	case sitGoneBlockVarAbsent:
+		pre = append(pre, rt.If(rt.Bool(true), rt.Block(rt.Assign("=", sh.Var(), val.Node()))))
+	case sitGoneLoopVarOverTag:
+		if sh.Key != "k" {
+			return nil, false
+		}
+		pt.Tags[sh.Key] = "tagval"
+		pre = append(pre, rt.ForIn("k", rt.List(val.Node()), rt.Block(rt.Assign("=", rt.Id("q"), rt.Int(1)))))
 	}
 	body := t.Build(sh.Arg)
 	tail := rt.Call("p", rt.Call("get_key", rt.Str(sh.Key)), rt.Call("get_key", rt.Id("o1")), rt.Call("get_key", rt.Id("dst")))
@@ -232,7 +254,7 @@ func c11Run(w *run.Worker) {
 	}
 	for _, t := range tmpls {
 		for _, sh := range shapes {
-			for sit := 0; sit < sitCount; sit++ {
+			for sit := 0; sit < sitCount11; sit++ {
 				for _, val := range vals {
 					for bi, base := range bases {
 						if !w.Take() {
@@ -300,8 +322,8 @@ func init() {
 	run.Register(&run.Check{
 		ID:    "C11",
 		Level: "model_checking",
-		Rule: "45 call templates of the 15 builtins (every optional argument present/absent, identifier/attribute/string/expression arguments, all cast types, good and bad regular expressions, format strings with matching and mismatching verbs) " +
-			"x 6 key spellings (identifier, back-quoted, string literal, `_`, attribute expression, attribute expression with an index) x 6 subject situations (variable only, field only, tag only, variable shadowing a field, variable shadowing a tag, absent) " +
+		Rule: "49 call templates of the 15 builtins (every optional argument present/absent, identifier/attribute/string/expression arguments, all cast types, good and bad regular expressions, format strings with matching and mismatching verbs) " +
+			"x 6 key spellings (identifier, back-quoted, string literal, `_`, attribute expression, attribute expression with an index) x 9 subject situations (variable only, field only, tag only, variable shadowing a field, variable shadowing a tag, absent, and three in which a variable of that name has ceased to exist: local to a finished loop body over a field, local to a finished block with the key absent, variable of a finished for-in loop over a tag) " +
 			"x 32 subject values (int incl. the largest, float incl. 1e19, -0.0 and an integral one, bool, zero-padded / hex / underscored / exponent numeric strings, plain/padded/url-encoded/'+' without '%'/trailing '%'/percent-encoded UTF-8/undecodable/JSON/JSON with trailing text/numeric/float/bool/non-ASCII/tab+newline/regex-special/empty strings, list, map, nil) x 3 base points; " +
 			"oracle: the whole canonical final point (so every other key is checked untouched), captured standard output, probe trace of return values, of a plain-expression read of the subject key directly after the builtin and of three get_key read-backs, error flag — all equal to the reference builtins",
 		Assumptions: []string{"strings, regexp, net/url, fmt, encoding/json and spf13/cast are the trusted base the reference shares with the code", "unspecified cells: cast of collections / non-numeric strings, cast to \"string\", rename onto an existing key, set_tag from a construct without value"},
